@@ -16,9 +16,11 @@
        unchanged store, reports matched 0 and a non-null upserted_id which is the _id of the
        new (last) document;
      - removed: the upserted _id is the filter's, else the update's, else a fresh ObjectId
-       (false: Refuted B1-B4); the new document matches an equality-only filter the update does
-       not overwrite (false: Refuted B5-B6).
-   c13_reasons got four bits (Spec/HistGuards.v, Refuted/C13.v part A). *)
+       (false: Refuted A4, B1, B3, B4); the new document matches an equality-only filter the
+       update does not overwrite (false: Refuted B5-B6).
+   c13_reasons has three bits (Spec/HistGuards.v, Refuted/C13.v part A); a fourth one (8: the
+   upserted _id is a datetime the normalisation changes) became unnecessary when the library
+   was repaired to key the store by, and return, the normalised _id, and was removed. *)
 From Coq Require Import ZArith List String Bool Ascii.
 From Verif Require Import Value PyEq BsonOrder Path Filter Update Project Coll HistCheck HistProps
   HistGuards.
